@@ -370,7 +370,12 @@ func (s *State) arr(key string, elem *Sort) *Term {
 	return t
 }
 
-func (s *State) setArr(key string, t *Term) { s.heap[key] = t }
+func (s *State) setArr(key string, t *Term) {
+	if t == nil {
+		panic("setArr nil for " + key)
+	}
+	s.heap[key] = t
+}
 
 // mergeStates joins states along edges with the given conditions (conditions are full path conditions).
 func mergeStates(conds []*Term, sts []*State) *State {
@@ -411,6 +416,9 @@ func mergeStates(conds []*Term, sts []*State) *State {
 		r := get(sts[len(sts)-1])
 		for i := len(sts) - 2; i >= 0; i-- {
 			r = Ite(conds[i], get(sts[i]), r)
+		}
+		if r == nil {
+			panic("mergeStates produced nil for " + k)
 		}
 		n.heap[k] = r
 	}
